@@ -99,7 +99,7 @@ CLAIMED["C17"] = dict(
 
 CLAIMED["C07"] = dict(
     technique="static analysis: expression-tree extraction from MIR (through await / ? / conversions) of the one-bit gadgets and finite evaluation of the extracted GF(2) polynomials over all input combinations against reference truth tables; exact integer-polynomial identity of the replicated multiplication summed over the three helpers; def-use and dominance checks for carry-in constants, returned values and the ripple-loop wiring",
-    text="Decides the gadget algebra and the wiring only: bit_adder / bit_subtractor equal the full adder (of x, !y, c) on all 8 inputs and read the incoming carry before overwriting it; or / bool_or / select equal OR / the multiplexer on all inputs; the three local shares of the semi-honest multiplication add up to the product as a polynomial identity, are sent left / received right and assembled as (local, received); each comparison / subtraction / addition entry point starts from the carry-in that two's-complement arithmetic requires (geq, sub, sat_sub: 1; gt, add, sat_add: 0), passes (x, y) in order and returns the threaded carry / the circuit bits / select(carry, diff, 0) / or(sum, carry); the ripple loops zip x with y padded by ZERO, narrow per bit index and push outputs in order. Share conversion, the PRF, integer multiplication, aggregation and vectorised layouts are NOT decided; no circuit is executed.",
+    text="Decides the gadget algebra and the wiring only: bit_adder / bit_subtractor equal the full adder (of x, !y, c) on all 8 inputs and read the incoming carry before overwriting it; or / bool_or / select equal OR / the multiplexer on all inputs; the three local shares of the semi-honest multiplication add up to the product as a polynomial identity, are sent left / received right and assembled as (local, received); each comparison / subtraction / addition entry point starts from the carry-in that two's-complement arithmetic requires (geq, sub, sat_sub: 1; gt, add, sat_add: 0), passes (x, y) in order and returns the threaded carry / the circuit bits / select(carry, diff, 0) / or(sum, carry); the ripple loops zip x with y padded by ZERO, narrow per bit index and push outputs in order; share_known_value and the semi-honest reshare are consistent replicated sharings of the right value (polynomial identities over the three role arms); the aggregation tree grows sums by the carry exactly while they are narrower than the output width and saturates from then on. Operands are identified by parameter position, not by name. Share conversion, the PRF, integer multiplication and vectorised layouts are NOT decided; no circuit is executed.",
     ref="§3 C07")
 
 CLAIMED["C01"] = dict(
